@@ -8,7 +8,8 @@ TIER_A = {
 
 PROPS = {
     "C13": {
-        "pkg": "c13",
+        "pkg": "c13", "env": {"SIM_PROP": "C13"},
+        "tierb": {"pkg": "stk", "legs": ["udp", "ssh", "quic/mem", "p2pke/udp", "quic/udp"], "runs": {"quick": 80, "thorough": 1500}, "budget": {"quick": 240, "thorough": 700}},
         "legs": ["tellhub", "askhub", "queue"],
         "runs": {"quick": 6000, "thorough": 400000},
         "budget": {"quick": 150, "thorough": 700},
@@ -19,7 +20,8 @@ PROPS = {
         "components": TIER_A,
         "level_text": "seeded exploration of schedules of concurrent deliver/receive/cancel/close on the real hubs and queue under a deterministic scheduler; every history is checked against the rendezvous specification (hubs) and a bounded-FIFO model (queue). Sampling, not enumeration: a clean batch is evidence, not proof.",
         "level_note": "trusted: the instrumenter (adds yields only), the synctest bubble, the runtime overlay (select order, map order), the oracle in sim/c13; interleavings are explored at channel operations, locks and Once.Do",
-        "assumptions": ["interleavings are explored at channel operations, locks and Once.Do, not inside straight-line code",
+        "assumptions": ["Tier B legs (udp, ssh, quic/mem, p2pke/udp, quic/udp; real clock, real loopback sockets): a Receive or ServeAsk blocked on a node without traffic is cancelled and must return the context's error within 3 seconds",
+                        "interleavings are explored at channel operations, locks and Once.Do, not inside straight-line code",
                         "the instrumenter only adds calls; the scratch copy is rebuilt from /repo's working tree on every run"],
     },
 }
